@@ -821,15 +821,23 @@ class Executor:
                 return "str:" + (v.extra or "")
             return "agg:%s%s(%s)" % (v.name or v.kind, "::" + v.variant if v.variant else "", ",".join(self.summ(state, f, depth + 1) for f in v.fields))
         if isinstance(v, Opaque):
-            o = v.origin
-            if isinstance(o, tuple) and len(o) > 1 and o[0] == "call":
-                return "opaque:%s(%s)" % (o[1], ",".join(str(x) for x in o[2]))
-            return "opaque:%s" % (o[0] if isinstance(o, tuple) else o)
+            return "opaque:" + self._origin_str(v.origin)
         if isinstance(v, VecL):
             return "vec[%s]" % ",".join(self.summ(state, f, depth + 1) for f in v.items)
         if z3.is_expr(v):
             return "z3:" + str(v)
         return repr(v)
+
+    def _origin_str(self, o, depth=0):
+        if not isinstance(o, tuple):
+            return str(o)
+        if len(o) > 2 and o[0] == "call":
+            return "%s(%s)" % (o[1], ",".join(str(x) for x in o[2]))
+        if len(o) == 2 and o[0] in ("ok-of", "err-of", "some-of") and depth < 3:
+            return "%s(%s)" % (o[0], self._origin_str(o[1], depth + 1))
+        if len(o) == 3 and o[0] == "field" and depth < 3:
+            return "field%s(%s)" % (o[2], self._origin_str(o[1], depth + 1))
+        return str(o[0])
 
     # ---- callee resolution ----------------------------------------------------------------------
     def resolve(self, callee, args, state):
